@@ -19,7 +19,14 @@ ASSUMPTIONS = [
     'area / winding consequences of the characterised sequence for the float build are checked on the implementation outputs by the exact oracle (1e-9), not proved',
 ]
 THEOREMS = ['C12_no_holes_unchanged', 'C12_hole_index_start_and_return', 'C12_hole_index_steps', 'C12_hole_index_visits_every_vertex',
-            'C12_merged_sequence', 'C12_walk_explicit', 'C12_splice_explicit', 'C12_bridge_shape', 'C12_edge_sum_splice', 'C12_newell_splice', 'C12_pinned_hole_index_refuted', 'C12_pinned_merge_refuted']
+            'C12_merged_sequence', 'C12_walk_explicit', 'C12_splice_explicit', 'C12_bridge_shape', 'C12_edge_sum_splice', 'C12_newell_splice', 'C12_pinned_hole_index_refuted', 'C12_pinned_merge_refuted',
+            # Properties/C12_region.v: the region theorems (any number of holes, reals)
+            'C12_region_merged_is_trace', 'C12_region_fold', 'C12_region_winding_one_hole', 'C12_region_winding', 'C12_region_winding_outside_holes', 'C12_region_winding_inside_one_hole', 'C12_region_planar_area',
+            'C12_region_newell_one_hole', 'C12_region_newell', 'C12_region_net_area', 'C12_region_closed_loops_have_signed_area',
+            'C12_region_same_direction_decisive', 'C12_region_polygon_accounting', 'C12_region_closed_area_normal',
+            'C12_region_merged_normal_planar', 'C12_region_closed_region', 'C12_region_every_vertex', 'C12_region_no_new_vertex',
+            'C12_region_no_holes', 'C12_region_scan_cases', 'C12_region_hits_wf', 'C12_region_hits_wf_any_instance',
+            'C12_region_within_reach_wf', 'C12_region_far_holes_refuted']
 
 def streams(tier):
     if tier == 'quick': return [Stream('C12', 700)]
